@@ -1,5 +1,19 @@
 """C10 check specification."""
 
+
+def _borrow(pid, sink, judge):
+    """A harness part of another property, judged by that property's judge (coq_import)."""
+    from importlib import import_module
+    sp = import_module('specs.' + pid).SPEC
+    for p in sp['parts']:
+        if sink in p['sinks']:
+            q = dict(p)
+            q['sinks'] = {sink: judge}
+            q['coq_import'] = sp['coq_check']
+            return q
+    raise KeyError((pid, sink))
+
+
 SPEC = {
     'id': 'C10',
     'title': 'All honest oracles compute byte-identical outcomes and reports',
@@ -9,6 +23,9 @@ SPEC = {
          'sinks': {'C10_commit': 'det_judge'}, 'n': {'quick': 80, 'thorough': 3000}},
         {'pkg': 'execute', 'src': 'harness/execute/c10_test.go', 'test': 'TestVerif_C10_exec', 'fakes': True,
          'sinks': {'C10_exec': 'det_judge'}, 'n': {'quick': 80, 'thorough': 3000}},
+        # long-lived execute oracles on the real home-chain poller, role map changing between rounds: all oracles attach
+        # one and the same transmission schedule to one outcome (borrowed from C16, judged by C16_check.rep_judge)
+        _borrow('C16', 'C16_rep_exec_roles', 'rep_roles_judge'),
     ],
     'rule': 'each case = one (previous outcome, query, ordered attributed observation list, configuration); commit: DON sizes 4/7/10, '
             '2-5 source chains, every merkle-root state (select / build / build-retry / wait), per-chain vote patterns '
@@ -17,7 +34,8 @@ SPEC = {
             'two messages for one sequence number, two nonces for one sender, equal timestamps, the same instant spelled Z and +00:00. '
             'Outcome and Reports are evaluated 16 times per case on fresh plugin instances (fresh Go maps), with a different own oracle id '
             'and a different process time zone (time.Local: UTC, +02:00, +14:00, -05:00) each time; the observable is the number of distinct '
-            '(outcome bytes, report bytes, transmission schedule) results. non-trivial = the outcome is non-empty (> 100 bytes); distinct by a digest of the full input',
+            '(outcome bytes, report bytes, transmission schedule) results; plus (C16_rep_exec_roles) four LONG-LIVED execute oracles over the real home-chain poller whose role map is re-drawn between rounds: '
+            'the distinct schedules they attach to one outcome (exactly one, that of the role map fetched last). non-trivial = the outcome is non-empty (> 100 bytes); distinct by a digest of the full input',
     'trusted': ['libocr delivers the same previous outcome, query and ordered observation list to every oracle',
                 'Go sort.SliceStable / sort.Slice are deterministic functions of their input slice',
                 'the effect of randomized map iteration is sampled by repetition on fresh instances (16 per case), not controlled'],
